@@ -72,7 +72,8 @@ struct FunctorArg {
     explicit FunctorArg(int i) : id(i), gen(++g_gen[i]) {}
     FunctorArg(const FunctorArg &o) : id(o.id), gen(++g_gen[o.id]) {}
     ~FunctorArg() { if (gen == g_gen[id]) destroyed(id); }
-    void operator()(int k) { if (k != id * 7) ev("BADARG " + std::to_string(id)); body(id); }
+    // a task may return something (a status, a count): the pool runs it once and ignores the result, whatever it converts to
+    long operator()(int k) { if (k != id * 7) ev("BADARG " + std::to_string(id)); body(id); return id; }
 };
 
 // evaluated by the scheduler (it holds its own lock): no worker thread can move
